@@ -1,5 +1,5 @@
 (* C02 — Reconciliation converges to exactly the desired pods and then goes quiet.  Statements only. *)
-From ASTS Require Import Base Slots Names World Reconcile ReconcileCheck PlanProofs ReconcileProofs ConvergeProofs Env TerminationProofs QuietProofs CounterProofs ConvergedStatus TerminationEnv ExampleWorld.
+From ASTS Require Import Base Slots Names World Reconcile ReconcileCheck PlanProofs ReconcileProofs ConvergeProofs Env TerminationProofs QuietProofs CounterProofs ConvergedStatus TerminationEnv RoundExec RoundCheck RoundLift RoundChain RoundExample ExampleWorld.
 
 (* pods_converged s upd cnt slots pods (ConvergeProofs.v): every desired ordinal holds a pod that is created,
    not failed/succeeded, Running and Ready, not terminating, with identity and storage in order, and — when the
@@ -109,6 +109,59 @@ Theorem C02_pod_phase_converges_any_environment :
 Proof. exact env_rounds_converge. Qed.
 Print Assumptions C02_pod_phase_converges_any_environment.
 
+(* (3d) THE FULL MODEL.  One fair round of the full reconcile + environment model — caches catch up, the reconcile
+   (revision phase, claiming, planner, executor, status write, history truncation) runs without injected faults,
+   terminating pods finish, the others become Running and Ready (env_round, RoundCheck.v) — leaves a
+   duplicate-free pod list with exactly the members of the abstract round, provided the world is REGULAR: the
+   cached set is the spec up to its status, no orphan revision to adopt, every pod already claimed, the update
+   revision in place and newest (gsr_value), the claims of the desired ordinals known to the cache. *)
+Theorem C02_full_model_round :
+  forall s upd cnt slots,
+    0 <= cnt <= max_i32 + 1 -> s_deleting s = false -> NoDup (s_claims s) ->
+    (forall i, use_current s i = true -> i < umin_of s) ->
+    forall cur hashes w rcur rupd coll r,
+    w_set w = Some s -> get_paused (s_pause s) = false -> s_selector s = SelOk ->
+    nothing_to_adopt w s = true ->
+    forallb (claim_quiet s) (w_pods w) = true -> claim_value s (w_pods w) = w_pods w ->
+    gsr_value hashes s (sort_revs (lrevs w s)) = Some (rcur, rupd, coll) ->
+    cur = {| ri_name := r_name rcur; ri_tmpl := r_tmpl rcur |} ->
+    upd = {| ri_name := r_name rupd; ri_tmpl := r_tmpl rupd |} ->
+    s_replicas s = Some r -> extend r (get_slots (s_slots s)) = (cnt, slots) ->
+    wf s cnt slots (w_pods w) -> NoDup (w_pods w) ->
+    (forall j, in_range cnt slots j = true -> claims_cached s w j) ->
+    let w' := env_round hashes w in
+    NoDup (w_pods w') /\ same_members (w_pods w') (round s upd cnt slots cur (w_pods w)).
+Proof. exact lift_round. Qed.
+Print Assumptions C02_full_model_round.
+
+(* (3e) hence, along the fair rounds of the full model (Wd (k+1) = env_round (Wd k)), as long as every round
+   starts from a regular world, the pods of the API state are converged after at most mu rounds and stay so.
+   The stored status changes from round to round; nothing the pod phase does depends on it when the spec
+   carries a partition (s_rolling s0 <> None, as every defaulted RollingUpdate spec does). *)
+Theorem C02_full_model_converges :
+  forall hashes s0 upd cnt r slots,
+    0 <= cnt <= max_i32 + 1 -> s_deleting s0 = false -> NoDup (s_claims s0) -> s_rolling s0 <> None ->
+    get_paused (s_pause s0) = false -> s_selector s0 = SelOk ->
+    s_replicas s0 = Some r -> extend r (get_slots (s_slots s0)) = (cnt, slots) ->
+    forall (Wd : nat -> world) (curs : nat -> rinfo),
+    (forall k, Wd (S k) = env_round hashes (Wd k)) ->
+    (forall k, regular hashes s0 upd cnt slots (Wd k) (curs k)) ->
+    wf s0 cnt slots (w_pods (Wd O)) -> NoDup (w_pods (Wd O)) ->
+    exists k, Z.of_nat k <= mu s0 upd cnt slots (w_pods (Wd O))
+      /\ forall m, (k <= m)%nat ->
+           pods_converged s0 upd cnt slots (w_pods (Wd m)) /\ same_members (w_pods (Wd m)) (w_pods (Wd k))
+           /\ forall cur, plan_acts s0 cur upd cnt slots (w_pods (Wd m)) = [].
+Proof. exact full_model_rounds_converge. Qed.
+Print Assumptions C02_full_model_converges.
+
+(* non-vacuity of (3e): a concrete world whose fair rounds are all regular (RoundExample.v): an outdated pod, a pod
+   in a delete slot, a failed pod, ordinal 3 vacant; the theorem gives convergence within mu = 6 rounds *)
+Example C02_ex_full_model :
+  exists k, Z.of_nat k <= 6
+    /\ forall m, (k <= m)%nat -> pods_converged rx_set rx_upd 4 [1] (w_pods (rx_W m))
+                                /\ forall cur, plan_acts rx_set cur rx_upd 4 [1] (w_pods (rx_W m)) = [].
+Proof. exact rx_converges. Qed.
+
 Theorem C02_defaulted_spec :
   forall s, (String.eqb (s_strategy s) "RollingUpdate" = true -> s_rolling s <> None) ->
   forall i, use_current s i = true -> i < umin_of s.
@@ -153,13 +206,16 @@ Proof. vm_compute. reflexivity. Qed.
 
 (* (4) PARTIAL — what is NOT proved.  Full statement: for every WF world there is n <= bound(world) such that
    n fair rounds reach a world that is converged with status.replicas = readyReplicas = spec.replicas, after
-   which a reconcile issues no write at all (status and revisions included).  Proved: (1)-(3) — the pod phase
-   is never stuck, is quiet exactly at the converged states, and reaches one in at most mu rounds.  NOT proved
-   in Coq: that the pods of the API world after a fair round of the FULL reconcile model (revision phase,
-   adoption, executor) are the pods of `round` — this step is evaluated, not proved: props/c02.py compares
-   `round` with the Env.v round on every generated settled world inside coqc; and that the world a fair history
-   ends in satisfies quietb (the stored status is the computed one, the history is tidy) — props/c02.py
-   evaluates quietb inside coqc on the final world of every generated history.  Both are also decided on the implementation by props/c02.py on every
+   which a reconcile issues no write at all (status and revisions included).  Proved: (1)-(3e) — the pod phase
+   is never stuck, is quiet exactly at the converged states, reaches one in at most mu rounds (abstractly, for
+   any environment, and over the full reconcile + environment model), the computed status there says
+   replicas = ready = spec.replicas, and in a quietb world no write at all is issued.  NOT proved in Coq:
+   that regularity is PRESERVED by a round of the full model (the revision phase after a history truncation,
+   the claims of newly desired ordinals) — (3e) assumes it for every round; and that the world a fair history
+   ends in satisfies quietb (the stored status is the computed one, the history is tidy).  Both are evaluated
+   inside coqc by props/c02.py: round_check (the hypotheses of (3d) plus the equality of the two rounds) on
+   the worlds of every generated history at its round boundaries and on synthetic settled worlds, quietb on the
+   final world of every generated history.  Both are also decided on the implementation by props/c02.py on every
    generated history (chaotic prefix of reconciles, kubelet events, partial cache refreshes, transient
    faults, edits that stop; then the fair suffix): the set must be converged, the status must be the census,
    and the last two reconciles must issue no write; the environment model Env.v is compared with the real
